@@ -70,6 +70,55 @@ Section KeepFirst.
     simpl. f_equal. rewrite IH. f_equal. rewrite <- app_assoc. reflexivity.
   Qed.
 
+
+  Lemma kf_seen_ext eq l : forall S1 S2,
+    (forall x, existsb (eq x) S1 = existsb (eq x) S2) ->
+    keep_first eq S1 l = keep_first eq S2 l.
+  Proof.
+    induction l as [|a r IH]; intros S1 S2 H; simpl; [reflexivity|].
+    rewrite (H a). destruct (existsb (eq a) S2); [apply IH; exact H|].
+    f_equal. apply IH. intros x. simpl. rewrite (H x). reflexivity.
+  Qed.
+
+  Lemma kf_drop_seen eq S l1 a l2 :
+    existsb (eq a) S = true -> keep_first eq S (l1 ++ a :: l2) = keep_first eq S (l1 ++ l2).
+  Proof.
+    intros H. rewrite !kf_app. f_equal. simpl.
+    rewrite existsb_app, H, orb_true_r. reflexivity.
+  Qed.
+
+  (* an equality test that decides equality of a key *)
+  Section Keyed.
+    Variable K : Type.
+    Variable key : A -> K.
+    Variable eq : A -> A -> bool.
+    Hypothesis eq_key : forall a b, eq a b = true <-> key a = key b.
+
+    Lemma existsb_key x L : existsb (eq x) L = true <-> In (key x) (map key L).
+    Proof.
+      induction L as [|s L IH]; simpl; [split; [discriminate | tauto]|].
+      rewrite orb_true_iff, IH, eq_key. split; intros [H|H]; auto.
+    Qed.
+
+    Lemma kf_keys l : forall S k,
+      In k (map key (keep_first eq S l)) \/ In k (map key S) <-> In k (map key l) \/ In k (map key S).
+    Proof.
+      induction l as [|a r IH]; intros S k; simpl; [tauto|].
+      destruct (existsb (eq a) S) eqn:E.
+      - apply existsb_key in E. rewrite IH. split; [tauto|].
+        intros [[H|H]|H]; [subst k; right; exact E | tauto | tauto].
+      - simpl. specialize (IH (a :: S) k). simpl in IH. tauto.
+    Qed.
+
+    (* the kept elements carry the same keys as the list *)
+    Lemma kf_existsb x S l :
+      existsb (eq x) (rev (keep_first eq S l) ++ S) = existsb (eq x) (S ++ l).
+    Proof.
+      apply eq_true_iff_eq. rewrite !existsb_key, !map_app, map_rev, !in_app_iff, <- in_rev.
+      rewrite (kf_keys l S (key x)). tauto.
+    Qed.
+  End Keyed.
+
   Lemma kf_subset eq l : forall seen x, In x (keep_first eq seen l) -> In x l.
   Proof.
     induction l as [|a r IH]; intros seen x; simpl; [tauto|].
@@ -140,6 +189,28 @@ Proof.
   unfold same_ident, rident, ident_eqb, name_eq. rewrite H1, H2, H3, !String.eqb_refl, Z.eqb_refl.
   simpl. apply andb_true_r.
 Qed.
+
+
+Lemma same_id_ident a b : same_id a b = same_ident a b.
+Proof.
+  unfold same_id, same_key, same_ident, rident, ident_eqb.
+  destruct (a_resseq a =? a_resseq b)%Z, (a_icode a =? a_icode b), (a_chain a =? a_chain b),
+    (a_name a =? a_name b); reflexivity.
+Qed.
+
+Definition idk (a : atomrec) := (a_resseq a, a_icode a, a_chain a, a_name a).
+
+Lemma same_id_key a b : same_id a b = true <-> idk a = idk b.
+Proof.
+  unfold same_id, same_key, idk. rewrite !andb_true_iff, Z.eqb_eq, !String.eqb_eq.
+  split; [intros [[[H1 H2] H3] H4]; congruence | intros H; injection H; auto].
+Qed.
+
+Lemma same_id_same_key a b : same_id a b = true -> same_key a b = true.
+Proof. unfold same_id. intros H. apply andb_true_iff in H as [H _]. exact H. Qed.
+
+Lemma same_id_name a b : same_key a b = true -> same_id a b = name_eq a b.
+Proof. unfold same_id, name_eq. intros H. rewrite H. reflexivity. Qed.
 
 (* ---- create_residue keeps the first-listed record of every name -------------- *)
 
@@ -262,7 +333,8 @@ Section Stable.
     pend_ok st -> g_res st <> [] ->
     Permutation (chain_res (g_chains (flush tab st))) (mkres (g_res st) :: chain_res (g_chains st)) /\
     g_prev (flush tab st) = g_prev st /\ g_res (flush tab st) = g_res st /\
-    g_nm (flush tab st) = g_nm st /\ g_count (flush tab st) = g_count st.
+    g_nm (flush tab st) = g_nm st /\ g_count (flush tab st) = g_count st /\
+    g_placed (flush tab st) = g_placed st.
   Proof.
     intros Hp Hne. unfold flush. rewrite (Hp Hne).
     destruct (last_atom_some _ Hne) as [q [Eq _]]. rewrite Eq. simpl.
@@ -275,53 +347,64 @@ Section Stable.
     | _ => true
     end.
 
-  Lemma gstep_atom nch st a :
+  Lemma gstep_atom nch free st a :
     rec_inert nch (RAtom a) = true -> pend_ok st ->
-    exists st3, gstep tab nch st (RAtom a) = GCont st3 /\ pend_ok st3 /\ g_nm st3 = g_nm st /\
+    exists st3, gstep tab nch free st (RAtom a) = GCont st3 /\ pend_ok st3 /\ g_nm st3 = g_nm st /\
+      if existsb (same_id a) (g_placed st) then st3 = st
+      else
       match last_atom (g_res st) with
       | Some q =>
           if same_key a q
-          then g_res st3 = g_res st ++ [a] /\ chain_res (g_chains st3) = chain_res (g_chains st)
+          then g_res st3 = g_res st ++ [a] /\ chain_res (g_chains st3) = chain_res (g_chains st) /\
+               g_placed st3 = g_placed st
           else g_res st3 = [a] /\
-               Permutation (chain_res (g_chains st3)) (mkres (g_res st) :: chain_res (g_chains st))
-      | None => g_res st3 = [a] /\ chain_res (g_chains st3) = chain_res (g_chains st)
+               Permutation (chain_res (g_chains st3)) (mkres (g_res st) :: chain_res (g_chains st)) /\
+               g_placed st3 = g_placed st ++ g_res st
+      | None => g_res st3 = [a] /\ chain_res (g_chains st3) = chain_res (g_chains st) /\
+                g_placed st3 = g_placed st
       end.
   Proof.
     intros Hr Hp. cbn [rec_inert] in Hr. apply negb_true_iff in Hr.
     cbn [gstep]. rewrite Hr.
-    set (st1 := mkG (g_prev st) (g_res st) (g_nm st) (g_count st) (ensure_chain (a_chain a) (g_chains st))).
+    destruct (existsb (same_id a) (g_placed st)) eqn:Epl.
+    { exists st. repeat split; try reflexivity. exact Hp. }
+    set (st1 := mkG (g_prev st) (g_res st) (g_nm st) (g_count st)
+                    (ensure_chain (a_chain a) (g_chains st)) (g_placed st)).
     assert (Hp1 : pend_ok st1) by exact Hp.
     assert (C1 : chain_res (g_chains st1) = chain_res (g_chains st)) by apply ensure_chain_res.
     change (g_prev st1) with (g_prev st). change (g_res st1) with (g_res st).
     destruct (last_atom (g_res st)) as [q|] eqn:Eq.
     - assert (Hne : g_res st <> []) by (intros E; rewrite E in Eq; discriminate).
-      rewrite (Hp Hne), Eq. 
+      rewrite (Hp Hne), Eq.
       assert (Enil : is_nil (g_res st) = false) by (apply is_nil_false; exact Hne).
       rewrite Enil. cbn [negb andb].
       destruct (same_key a q) eqn:Ek; cbn [negb].
       + eexists; split; [reflexivity|].
         change (g_res st1) with (g_res st). change (g_nm st1) with (g_nm st).
         split; [intros _; symmetry; apply last_atom_snoc|]. split; [reflexivity|].
-        split; [reflexivity | exact C1].
-      + destruct (flush_spec st1 Hp1 Hne) as [PF [F1 [F2 [F3 F4]]]].
-        eexists; split; [reflexivity|]. unfold clear_res. cbn [g_prev g_res g_nm g_chains].
+        split; [reflexivity|]. split; [exact C1 | reflexivity].
+      + assert (Hp2 : pend_ok (place st1)) by exact Hp.
+        assert (Hne2 : g_res (place st1) <> []) by exact Hne.
+        destruct (flush_spec (place st1) Hp2 Hne2) as [PF [F1 [F2 [F3 [F4 F5]]]]].
+        eexists; split; [reflexivity|]. unfold clear_res. cbn [g_prev g_res g_nm g_chains g_placed].
         split; [intros _; reflexivity|]. split; [exact F3|].
-        split; [reflexivity|]. rewrite <- C1. exact PF.
+        split; [reflexivity|]. split; [rewrite <- C1; exact PF | exact F5].
     - apply last_atom_none in Eq. rewrite Eq.
       assert (E2 : match g_prev st with
                    | Some q => if negb (is_nil (@nil atomrec)) && negb (same_key a q)
-                               then clear_res (flush tab st1) else st1
+                               then clear_res (flush tab (place st1)) else st1
                    | None => st1 end = st1) by (destruct (g_prev st); reflexivity).
       rewrite E2. eexists; split; [reflexivity|].
       change (g_res st1) with (g_res st). change (g_nm st1) with (g_nm st). rewrite Eq.
-      split; [intros _; reflexivity|]. split; [reflexivity|]. split; [reflexivity | exact C1].
+      split; [intros _; reflexivity|]. split; [reflexivity|]. split; [reflexivity|].
+      split; [exact C1 | reflexivity].
   Qed.
 
-  Lemma gloop_lsegs nch recs : forall st,
+  Lemma gloop_lsegs nch free recs : forall st,
     pend_ok st -> forallb (rec_inert nch) recs = true ->
-    exists st', gloop tab nch st recs = Some st' /\
+    exists st', gloop tab nch free st recs = Some st' /\
       Permutation (chain_res (g_chains st'))
-                  (chain_res (g_chains st) ++ map mkres (lsegs (g_nm st) (g_res st) recs)).
+                  (chain_res (g_chains st) ++ map mkres (lsegs (g_placed st) (g_nm st) (g_res st) recs)).
   Proof.
     induction recs as [|r rest IH]; intros st Hp Hin.
     - (* end of list *)
@@ -333,21 +416,22 @@ Section Stable.
     - cbn [forallb] in Hin. apply andb_true_iff in Hin as [Hr Hin].
       destruct r as [a| | |].
       + (* ATOM / HETATM *)
-        destruct (gstep_atom nch st a Hr Hp) as [st3 [G3 [Hp3 [Nm3 M]]]].
+        destruct (gstep_atom nch free st a Hr Hp) as [st3 [G3 [Hp3 [Nm3 M]]]].
         cbn [gloop]. rewrite G3.
         destruct (IH st3 Hp3 Hin) as [st' [G P]]. exists st'. split; [exact G|].
         rewrite Nm3 in P. cbn [lsegs].
+        destruct (existsb (same_id a) (g_placed st)); [subst st3; exact P|].
         destruct (last_atom (g_res st)) as [q|].
         * destruct (same_key a q).
-          -- destruct M as [M1 M2]. rewrite M1, M2 in P. exact P.
-          -- destruct M as [M1 M2]. rewrite M1 in P.
+          -- destruct M as [M1 [M2 M3]]. rewrite M1, M2, M3 in P. exact P.
+          -- destruct M as [M1 [M2 M3]]. rewrite M1, M3 in P.
              eapply Permutation_trans; [exact P|].
              eapply Permutation_trans; [apply Permutation_app_tail; exact M2|].
              cbn [map]. simpl. apply Permutation_middle.
-        * destruct M as [M1 M2]. rewrite M1, M2 in P. exact P.
+        * destruct M as [M1 [M2 M3]]. rewrite M1, M2, M3 in P. exact P.
       + (* TER *)
         cbn [gloop gstep lsegs].
-        set (st1 := mkG (g_prev st) (g_res st) (g_nm st) (S (g_count st)) (g_chains st)).
+        set (st1 := mkG (g_prev st) (g_res st) (g_nm st) (S (g_count st)) (g_chains st) (g_placed st)).
         destruct (IH st1 Hp Hin) as [st' [G P]]. exists st'. split; [exact G | exact P].
       + (* END *)
         cbn [gloop gstep lsegs].
@@ -355,32 +439,37 @@ Section Stable.
         * cbn [is_nil cons_nel].
           set (st1 := clear_res st).
           destruct (IH st1) as [st' [G P]]; [intros H; exfalso; apply H; reflexivity | exact Hin |].
-          exists st'. split; [exact G | exact P].
-        * assert (Hne : g_res st <> []) by (rewrite Eres; discriminate).
-          destruct (flush_spec st Hp Hne) as [PF [F1 [F2 [F3 F4]]]].
+          exists st'. split; [exact G|].
+          unfold st1, clear_res in P. cbn [g_chains g_nm g_res g_placed] in P.
+          rewrite app_nil_r. exact P.
+        * assert (Hne : g_res (place st) <> []) by (cbn [place g_res]; rewrite Eres; discriminate).
+          assert (Hp2 : pend_ok (place st)) by exact Hp.
+          destruct (flush_spec (place st) Hp2 Hne) as [PF [F1 [F2 [F3 [F4 F5]]]]].
           cbn [is_nil cons_nel].
-          set (st1 := clear_res (flush tab st)).
+          set (st1 := clear_res (flush tab (place st))).
           destruct (IH st1) as [st' [G P]]; [intros H; exfalso; apply H; reflexivity | exact Hin |].
           exists st'. split; [exact G|].
-          unfold st1, clear_res in P. cbn [g_chains g_nm g_res] in P. rewrite F3 in P.
+          unfold st1, clear_res in P. cbn [g_chains g_nm g_res g_placed] in P. rewrite F3, F5 in P.
+          cbn [place g_nm g_placed g_res g_chains] in P, PF. rewrite Eres in P, PF.
           eapply Permutation_trans; [exact P|].
           eapply Permutation_trans; [apply Permutation_app_tail; exact PF|].
-          rewrite <- Eres. cbn [map]. simpl. apply Permutation_middle.
+          cbn [map]. simpl. apply Permutation_middle.
       + (* MODEL *)
         cbn [gloop gstep lsegs].
-        set (st1 := mkG (g_prev st) (g_res st) (S (g_nm st)) (g_count st) (g_chains st)).
+        set (st1 := mkG (g_prev st) (g_res st) (S (g_nm st)) (g_count st) (g_chains st) (g_placed st)).
         assert (Hp1 : pend_ok st1) by exact Hp.
         change (g_res st1) with (g_res st). change (g_nm st1) with (S (g_nm st)).
-        destruct (is_nil (g_res st)) eqn:En.
-        * apply is_nil_true in En.
-          destruct (IH st1 Hp1 Hin) as [st' [G P]]. exists st'. split; [exact G|].
-          unfold st1 in P. cbn [g_chains g_nm g_res] in P. rewrite En in P. exact P.
-        * destruct (1 <? S (g_nm st))%nat.
+        destruct (1 <? S (g_nm st))%nat.
+        * destruct (is_nil (g_res st)) eqn:En.
+          -- apply is_nil_true in En. rewrite En. eexists; split; [reflexivity|].
+             simpl. rewrite app_nil_r. apply Permutation_refl.
           -- apply is_nil_false in En.
              destruct (flush_spec st1 Hp1 En) as [PF _].
              eexists; split; [reflexivity|]. eapply Permutation_trans; [exact PF|].
+             change (g_res st1) with (g_res st). change (g_chains st1) with (g_chains st).
+             destruct (g_res st) as [|x xs]; [exfalso; apply En; reflexivity|].
              simpl. apply Permutation_cons_append.
-          -- destruct (IH st1 Hp1 Hin) as [st' [G P]]. exists st'. split; [exact G | exact P].
+        * destruct (IH st1 Hp1 Hin) as [st' [G P]]. exists st'. split; [exact G | exact P].
   Qed.
 
   (* ---- what the runs contain ---------------------------------------------------- *)
@@ -396,87 +485,129 @@ Section Stable.
   Lemma concat_cons_nel {A} (h : list A) t : concat (cons_nel h t) = h ++ concat t.
   Proof. destruct h; reflexivity. Qed.
 
-  Lemma lsegs_concat recs : forall nm pend,
-    nm <= 1 -> nm_ok nm (negb (is_nil pend)) recs = true ->
-    concat (lsegs nm pend recs) = pend ++ atoms_of (fm nm recs).
-  Proof.
-    induction recs as [|r rest IH]; intros nm pend Hnm Hok.
-    - simpl. destruct pend as [|x xs]; simpl; [reflexivity|].
-      destruct (nm <=? 1)%nat eqn:E; [simpl; rewrite !app_nil_r; reflexivity|].
-      apply Nat.leb_gt in E. lia.
-    - destruct r as [a| | |]; cbn [lsegs fm atoms_of nm_ok] in *.
-      + destruct (last_atom pend) as [q|] eqn:Eq.
-        * destruct (same_key a q).
-          -- rewrite IH; [rewrite <- app_assoc; reflexivity | exact Hnm |].
-             destruct pend; exact Hok.
-          -- cbn [concat]. rewrite (IH nm [a] Hnm Hok). reflexivity.
-        * apply last_atom_none in Eq. subst pend. rewrite (IH nm [a] Hnm Hok). reflexivity.
-      + apply IH; assumption.
-      + rewrite concat_cons_nel. rewrite (IH nm [] Hnm Hok). reflexivity.
-      + destruct (1 <=? nm)%nat eqn:E1.
-        * apply Nat.leb_le in E1. apply negb_true_iff in Hok. rewrite Hok.
-          assert (E2 : (1 <? S nm)%nat = true) by (apply Nat.ltb_lt; lia). rewrite E2.
-          simpl. rewrite !app_nil_r. reflexivity.
-        * apply Nat.leb_gt in E1. assert (nm = 0) by lia. subst nm.
-          destruct (is_nil pend) eqn:En.
-          -- apply is_nil_true in En. subst pend. apply (IH 1 []); [lia | exact Hok].
-          -- cbn [Nat.ltb Nat.leb]. apply (IH 1 pend); [lia|]. rewrite En. exact Hok.
-  Qed.
-
   Definition hom (seg : list atomrec) : Prop := forall a b, In a seg -> In b seg -> same_key a b = true.
 
   Lemma hom_nil : hom []. Proof. intros a b []. Qed.
   Lemma hom_one a : hom [a].
   Proof. intros x y [Hx|[]] [Hy|[]]. subst. apply same_key_refl. Qed.
 
+  Lemma last_atom_in pend q : last_atom pend = Some q -> In q pend.
+  Proof.
+    intros Eq. destruct pend as [|x xs]; [discriminate|].
+    destruct (last_atom_some (x :: xs)) as [q' [E' I']]; [discriminate|]. congruence.
+  Qed.
+
+  Lemma hom_snoc pend q a :
+    hom pend -> last_atom pend = Some q -> same_key a q = true -> hom (pend ++ [a]).
+  Proof.
+    intros Hh Eq Ek. pose proof (last_atom_in _ _ Eq) as Hq.
+    assert (Ka : forall z, In z pend -> same_key z a = true).
+    { intros z Hz. eapply same_key_trans; [apply (Hh z q Hz Hq) | apply same_key_sym; exact Ek]. }
+    intros x y Hx Hy. apply in_app_or in Hx, Hy.
+    destruct Hx as [Hx|[Hx|[]]], Hy as [Hy|[Hy|[]]]; subst.
+    - apply Hh; assumption.
+    - apply Ka; assumption.
+    - apply same_key_sym, Ka; assumption.
+    - apply same_key_refl.
+  Qed.
+
+  (* a record with another key matches no record of the run *)
+  Lemma hom_other_key pend q a x :
+    hom pend -> last_atom pend = Some q -> same_key a q = false -> In x pend -> same_id a x = false.
+  Proof.
+    intros Hh Eq Ek Hx. destruct (same_id a x) eqn:E; [|reflexivity].
+    apply same_id_same_key in E. pose proof (last_atom_in _ _ Eq) as Hq.
+    rewrite (same_key_trans a x q E (Hh x q Hx Hq)) in Ek. discriminate.
+  Qed.
+
   Lemma Forall_cons_nel {A} (P : list A -> Prop) h t : P h -> Forall P t -> Forall P (cons_nel h t).
   Proof. intros H1 H2. destruct h; [exact H2 | constructor; assumption]. Qed.
 
-  Lemma lsegs_hom recs : forall nm pend, hom pend -> Forall hom (lsegs nm pend recs).
+  Lemma lsegs_hom recs : forall pl nm pend, hom pend -> Forall hom (lsegs pl nm pend recs).
   Proof.
-    induction recs as [|r rest IH]; intros nm pend Hh.
+    induction recs as [|r rest IH]; intros pl nm pend Hh.
     - simpl. destruct (negb (is_nil pend) && (nm <=? 1)%nat); repeat constructor. exact Hh.
     - destruct r as [a| | |]; cbn [lsegs].
-      + destruct (last_atom pend) as [q|] eqn:Eq.
+      + destruct (existsb (same_id a) pl); [apply IH; exact Hh|].
+        destruct (last_atom pend) as [q|] eqn:Eq.
         * destruct (same_key a q) eqn:Ek.
-          -- apply IH. assert (Hq : In q pend).
-             { destruct pend as [|x xs]; [discriminate|].
-               destruct (last_atom_some (x :: xs)) as [q' [E' I']]; [discriminate|]. congruence. }
-             intros x y Hx Hy. apply in_app_or in Hx, Hy.
-             assert (Ka : forall z, In z pend -> same_key z a = true).
-             { intros z Hz. eapply same_key_trans; [apply (Hh z q Hz Hq) | apply same_key_sym; exact Ek]. }
-             destruct Hx as [Hx|[Hx|[]]], Hy as [Hy|[Hy|[]]]; subst.
-             ++ apply Hh; assumption.
-             ++ apply Ka; assumption.
-             ++ apply same_key_sym, Ka; assumption.
-             ++ apply same_key_refl.
+          -- apply IH. eapply hom_snoc; eassumption.
           -- constructor; [exact Hh | apply IH, hom_one].
         * apply IH, hom_one.
       + apply IH; exact Hh.
       + apply Forall_cons_nel; [exact Hh | apply IH, hom_nil].
-      + destruct (is_nil pend); [apply IH, hom_nil|].
-        destruct (1 <? S nm)%nat; [repeat constructor; exact Hh | apply IH; exact Hh].
+      + destruct (1 <? S nm)%nat; [apply Forall_cons_nel; [exact Hh | constructor] | apply IH; exact Hh].
   Qed.
 
-  (* ---- per-run first-wins = global first-wins when runs share no identity ----- *)
+  (* ---- per-run first-wins + skipping placed identities = global first-wins ----- *)
 
-  Lemma kf_concat segs :
-    runs_disjoint segs = true ->
-    keep_first same_ident [] (concat segs) = concat (map (keep_first same_ident []) segs).
+  Notation KF := (keep_first same_id).
+
+  Lemma no_match_kf P pend :
+    (forall x, In x pend -> existsb (same_id x) P = false) -> KF P pend = KF [] pend.
   Proof.
-    induction segs as [|s r IH]; intros H; simpl; [reflexivity|].
-    simpl in H. apply andb_true_iff in H as [H1 H2].
-    rewrite kf_app, app_nil_r. f_equal.
-    rewrite <- (IH H2).
-    apply (kf_seen_irrel same_ident (rev (keep_first same_ident [] s)) (concat r) []).
-    intros b x Hb Hx. rewrite forallb_forall in H1. specialize (H1 b Hb).
-    rewrite forallb_forall in H1. apply in_rev, kf_subset in Hx.
-    apply negb_true_iff. apply H1; exact Hx.
+    intros H. apply (kf_seen_irrel same_id P pend []).
+    intros b s Hb Hs. specialize (H b Hb).
+    destruct (same_id b s) eqn:E; [|reflexivity].
+    assert (X : existsb (same_id b) P = true) by (apply existsb_exists; exists s; split; assumption).
+    rewrite X in H. discriminate.
   Qed.
 
-  Lemma kf_hom seg : hom seg -> keep_first same_ident [] seg = keep_first name_eq [] seg.
+  (* closing the run [pend]: what was seen = placed ++ pend *)
+  Lemma kf_close P pend l :
+    (forall x, In x pend -> existsb (same_id x) P = false) ->
+    KF P (pend ++ l) = KF [] pend ++ KF (P ++ pend) l.
   Proof.
-    intros H. apply kf_agree. simpl. intros a b Ha Hb. apply same_ident_key. apply H; assumption.
+    intros H. rewrite kf_app, (no_match_kf P pend H). f_equal.
+    apply kf_seen_ext. intros x. rewrite <- (no_match_kf P pend H).
+    apply (kf_existsb _ idk same_id same_id_key).
+  Qed.
+
+  Lemma kf_lsegs recs : forall P nm pend,
+    nm <= 1 -> hom pend -> (forall x, In x pend -> existsb (same_id x) P = false) ->
+    concat (map (KF []) (lsegs P nm pend recs)) = KF P (pend ++ atoms_of (fm nm recs)).
+  Proof.
+    induction recs as [|r rest IH]; intros P nm pend Hnm Hh Hno.
+    - cbn [lsegs fm atoms_of]. rewrite app_nil_r.
+      assert (E : (nm <=? 1)%nat = true) by (apply Nat.leb_le; exact Hnm). rewrite E, andb_true_r.
+      destruct pend as [|x xs]; [reflexivity|]. cbn [is_nil negb map concat]. rewrite app_nil_r.
+      symmetry. apply no_match_kf. exact Hno.
+    - destruct r as [a| | |]; cbn [lsegs fm atoms_of].
+      + destruct (existsb (same_id a) P) eqn:Ea.
+        { rewrite (IH P nm pend Hnm Hh Hno). symmetry. apply kf_drop_seen. exact Ea. }
+        destruct (last_atom pend) as [q|] eqn:Eq.
+        * destruct (same_key a q) eqn:Ek.
+          -- rewrite (IH P nm (pend ++ [a]) Hnm).
+             ++ rewrite <- app_assoc. reflexivity.
+             ++ eapply hom_snoc; eassumption.
+             ++ intros x Hx. apply in_app_or in Hx as [Hx|[Hx|[]]]; [apply Hno; exact Hx | subst x; exact Ea].
+          -- cbn [map concat]. rewrite (IH (P ++ pend) nm [a] Hnm (hom_one a)).
+             ++ symmetry. apply (kf_close P pend (a :: atoms_of (fm nm rest)) Hno).
+             ++ intros x [Hx|[]]. subst x. rewrite existsb_app, Ea. cbn [orb].
+                destruct (existsb (same_id a) pend) eqn:Ex; [|reflexivity].
+                apply existsb_exists in Ex as [y [Hy Ey]].
+                rewrite (hom_other_key pend q a y Hh Eq Ek Hy) in Ey. discriminate.
+        * apply last_atom_none in Eq. subst pend.
+          rewrite (IH P nm [a] Hnm (hom_one a)); [reflexivity|].
+          intros x [Hx|[]]. subst x. exact Ea.
+      + apply IH; assumption.
+      + assert (C : concat (map (KF []) (cons_nel pend (lsegs (P ++ pend) nm [] rest))) =
+                    KF [] pend ++ concat (map (KF []) (lsegs (P ++ pend) nm [] rest))).
+        { destruct pend; reflexivity. }
+        rewrite C, (IH (P ++ pend) nm [] Hnm hom_nil) by (intros x []).
+        symmetry. apply (kf_close P pend (atoms_of (fm nm rest)) Hno).
+      + destruct (1 <=? nm)%nat eqn:E1.
+        * apply Nat.leb_le in E1. assert (E2 : (1 <? S nm)%nat = true) by (apply Nat.ltb_lt; lia).
+          rewrite E2. cbn [atoms_of]. rewrite app_nil_r.
+          destruct pend as [|x xs]; [reflexivity|]. cbn [cons_nel map concat]. rewrite app_nil_r.
+          symmetry. apply no_match_kf. exact Hno.
+        * apply Nat.leb_gt in E1. assert (nm = 0) by lia. subst nm.
+          cbn [Nat.ltb Nat.leb atoms_of]. apply (IH P 1 pend); [lia | exact Hh | exact Hno].
+  Qed.
+
+  Lemma kf_hom seg : hom seg -> KF [] seg = keep_first name_eq [] seg.
+  Proof.
+    intros H. apply kf_agree. simpl. intros a b Ha Hb. apply same_id_name. apply H; assumption.
   Qed.
 
   (* ---- lettering is inert under the guard ---------------------------------------- *)
@@ -504,20 +635,19 @@ Section Stable.
   (* ---- the record-level theorem ---------------------------------------------------- *)
 
   Theorem group_complete recs :
-    inert recs = true -> nm_ok 0 false recs = true ->
-    runs_disjoint (lsegs 0 [] recs) = true ->
-    forallb (alias_ok tab) (lsegs 0 [] recs) = true ->
+    inert recs = true ->
+    forallb (alias_ok tab) (lsegs [] 0 [] recs) = true ->
     exists rs, group tab recs = Some rs /\
       Permutation (map p (all_atoms rs))
                   (map p (keep_first same_ident [] (atoms_of (fm 0 recs)))).
   Proof.
-    intros Hin Hnm Hdis Hal.
+    intros Hin Hal.
     assert (Hri : forallb (rec_inert (1 + count_ter recs)) recs = true).
     { apply inert_rec_inert; [lia | exact Hin]. }
-    destruct (gloop_lsegs (1 + count_ter recs) recs g0) as [st' [G P]];
+    destruct (gloop_lsegs (1 + count_ter recs) (free_ids recs) recs g0) as [st' [G P]];
       [intros H; exfalso; apply H; reflexivity | exact Hri |].
     unfold group. rewrite G. eexists; split; [reflexivity|].
-    simpl in P. set (segs := lsegs 0 [] recs) in *.
+    simpl in P. set (segs := lsegs [] 0 [] recs) in *.
     unfold all_atoms. rewrite <- !flat_map_concat_map.
     assert (P2 : Permutation (flat_map snd (sort_chains (g_chains st'))) (map mkres segs)).
     { eapply Permutation_trans; [|exact P]. apply Permutation_flat_map, sort_chains_perm. }
@@ -526,9 +656,11 @@ Section Stable.
     (* now an equality *)
     assert (E : map p (flat_map r_atoms (map mkres segs)) =
                 map p (keep_first same_ident [] (atoms_of (fm 0 recs)))).
-    { assert (Hc : concat segs = atoms_of (fm 0 recs)).
-      { unfold segs. rewrite (lsegs_concat recs 0 []); [reflexivity | lia | exact Hnm]. }
-      rewrite <- Hc, (kf_concat segs Hdis).
+    { assert (Hk : keep_first same_ident [] (atoms_of (fm 0 recs)) = KF [] (atoms_of (fm 0 recs))).
+      { apply kf_agree. intros a b _ _. symmetry. apply same_id_ident. }
+      rewrite Hk.
+      pose proof (kf_lsegs recs [] 0 [] (Nat.le_0_l 1) hom_nil (fun x (H : In x []) => False_ind _ H)) as Hc.
+      cbn [app] in Hc. rewrite <- Hc. fold segs.
       assert (Hh : Forall hom segs) by (apply lsegs_hom, hom_nil).
       clear - Hh Hal p_alt p_name p_resname p_het. induction segs as [|s r IH]; [reflexivity|].
       simpl in *. apply andb_true_iff in Hal as [Ha Hr]. inversion Hh as [|? ? Hs Hr']; subst.
